@@ -64,6 +64,7 @@ func Main(args []string) int {
 	walked, wstates := 0, 0
 	if *trans != "" {
 		graph := map[string][]edge{}
+		dup := map[string]bool{}
 		fh, err := os.Open(*trans)
 		if err != nil {
 			fmt.Fprintln(os.Stderr, err)
@@ -87,6 +88,11 @@ func Main(args []string) int {
 				return 2
 			}
 			k := canon(t.Pre)
+			ek := k + "|" + t.A + "|" + canon(t.Args)
+			if dup[ek] { // the same (state, action) reached at another depth of the bounded search
+				continue
+			}
+			dup[ek] = true
 			graph[k] = append(graph[k], edge{A: t.A, Args: normArgs(t.Args), OK: t.OK})
 		}
 		fh.Close()
